@@ -65,6 +65,7 @@ type simServer struct {
 	// observations
 	ctx        context.Context
 	errw       io.WriteCloser
+	pemCert    []byte
 	started    bool
 	startedAt  time.Duration
 	request    *conformancev1.ServerCompatRequest
@@ -155,6 +156,11 @@ func (s *simServer) impl(ctx context.Context, _ []string, in io.ReadCloser, out,
 		}
 		return nil
 	}
+	if s.sc.Resp == srStartError {
+		// through the in-process seam a start failure is a process that dies at once
+		s.fired[srNames[srStartError]]++
+		return errors.New("scripted server: cannot start")
+	}
 	s.writeLines(errw, false)
 	if s.sc.Resp == srCloseStdin {
 		s.fired[srNames[srCloseStdin]]++
@@ -214,6 +220,7 @@ func (s *simServer) impl(ctx context.Context, _ []string, in io.ReadCloser, out,
 	if s.sc.WithCert && s.sc.Resp != srNoCert {
 		resp.PemCert = []byte("-----BEGIN CERTIFICATE-----\nscripted-" + string(rune('A'+s.id%26)) + "\n-----END CERTIFICATE-----\n")
 	}
+	s.pemCert = resp.PemCert
 	data, _ := proto.Marshal(resp)
 	full := frame(data)
 	switch s.sc.Resp {
